@@ -65,11 +65,24 @@ def gen_names(ctx):
     cfg = "Gen_names_all.cfg"
     open(ctx.path("spec", cfg), "w").write("SPECIFICATION NSpec\nCONSTANTS\n  KindsUsed = {%s}\nCHECK_DEADLOCK FALSE\n" % ", ".join(ALL_KINDS))
     cf = ctx.path("cases_names.ndjson")
-    ctx.tlc("Gen_names", cfg, env={"CASE_FILE": cf}, workers=4, timeout=1200)
+    ctx.tlc("Gen_names", cfg, env={"CASE_FILE": cf, "DICT_FILE": ctx.source_dict()}, workers=4, timeout=1200)
     n = ctx.count_lines(cf)
     if n < 1000:
         raise vp.Broken("generator Gen_names produced only %d cases" % n)
     ctx.note("grammar: %d statements with an awkward name or string value in one position (every position of every kind)" % n)
+    return cf
+
+
+def gen_dict(ctx):
+    """the source dictionary (spec/common/Dict.tla) as names, string values and counts in every position of the shortest statements"""
+    cfg = "Gen_names_dict.cfg"
+    open(ctx.path("spec", cfg), "w").write("SPECIFICATION DSpec\nCONSTANTS\n  KindsUsed = {%s}\nCHECK_DEADLOCK FALSE\n" % ", ".join(ALL_KINDS))
+    cf = ctx.path("cases_dict.ndjson")
+    ctx.tlc("Gen_names", cfg, env={"CASE_FILE": cf, "DICT_FILE": ctx.source_dict()}, workers=4, timeout=1200)
+    n = ctx.count_lines(cf)
+    if n < 5000:
+        raise vp.Broken("generator Gen_names (dictionary) produced only %d cases" % n)
+    ctx.note("grammar: %d statements with a constant of the tree's own source as name, string value or count" % n)
     return cf
 
 
